@@ -41,3 +41,10 @@ func joinLines(l []string, max int) string {
 }
 
 func os_remove(p string) { os.Remove(p) }
+
+func min(a, b int) int {
+	if a < b {
+		return a
+	}
+	return b
+}
